@@ -98,6 +98,9 @@ func srvMain(args []string) {
 					continue
 				}
 				cr := rand.New(rand.NewSource(seeds[caseNo]))
+				if caseNo%100 == 0 {
+					throttlePorts()
+				}
 				cl, err := puppet.NewCluster(1)
 				if err != nil {
 					fatal(err)
